@@ -587,6 +587,8 @@ def rule_wq_requester(ctx, rep):
 
 META["explanation"] += " " + "Also (rounds 10-11): the parent clears exactly PAUSE and waits for PAUSED to drop, wait-loop polarity in before_fork / after_fork_parent, the helper re-registers after resume, bp's prune loop visits slots 0..capacity-1 in steps of one."
 
+META["explanation"] += " " + 'Also (round 12): the per-CPU helper array and its length word are reset together in the child.'
+
 RULES = [
     ("C16.handoff", rule_handoff),
     ("C16.handoff", rule_bp_handoff),
